@@ -17,6 +17,7 @@
 #include <malloc.h>
 #include <stddef.h>
 #include <dlfcn.h>
+#include <signal.h>
 #include "EbSvtAv1Enc.h"
 #include "EbSvtAv1ErrorCodes.h"
 
@@ -602,8 +603,21 @@ static int run_session(const VCase *c, const char *out, const char *suffix, int 
         rc = svt_av1_enc_send_picture(s.h, &eb);
         BLOG("R send_picture rc=0x%x", (unsigned)rc);
         int blocking = (int)v_case_int(c, "blocking_after_eos", s.frames > 0);
+        if (blocking && s.cfg.recon_enabled && fetch_recon) {
+            /* As the sample application does: keep polling both outputs without blocking until every recon
+             * picture has been fetched (a full recon pool would stall the pipeline), then block for the rest. */
+            while (!s.api_error && !(s.n_recon >= s.frames || s.eos_recon_seen)) {
+                int got = drain_packets(&s, 0);
+                got += drain_recon(&s);
+                if (s.eos_pkt_seen)
+                    break;
+                if (!got)
+                    usleep(300);
+            }
+        }
         if (blocking) {
-            drain_packets(&s, 1);
+            if (!s.eos_pkt_seen && !s.api_error)
+                drain_packets(&s, 1);
         } else {
             /* bounded non-blocking polling */
             int polls = (int)v_case_int(c, "eos_polls", 400);
@@ -682,12 +696,21 @@ teardown_handle_only:
     return s.api_error ? 3 : 0;
 }
 
+static void on_term(int sig) {
+    /* watchdog fired: flush what the monitors recorded so that the hang can be diagnosed */
+    (void)sig;
+    if (svt_verif_trace_flush)
+        svt_verif_trace_flush();
+    _exit(124);
+}
+
 int main(int argc, char **argv) {
     if (argc < 2) {
         fprintf(stderr, "usage: encdrv <case-file>\n");
         return 2;
     }
     v_drop_sys_nice();
+    signal(SIGTERM, on_term);
     VCase c;
     if (v_case_load(&c, argv[1])) {
         fprintf(stderr, "encdrv: cannot read %s\n", argv[1]);
